@@ -9,7 +9,8 @@ RULE = ("seeded polymers from blocks with exclusion distances 0..3 (uniform in ~
         "chains, trees, rings incl. short rings; link-made bonds incl. angle/dihedral-only links; explicit block "
         "exclusions) through the real gen_params; all-pairs recount on the written file: excluded(i,j) <=> "
         "dist(i,j) <= max(excl_i, excl_j) or explicit. non-trivial = case with >= 2 distinct block exclusion "
-        "distances among its residues; distinct = hash of (files, graph)")
+        "distances among its residues; distinct = hash of (files, graph)"
+        ' Later stratum: sequences over the shipped libraries (multi-atom exclusion rows, exclusions defined by links).')
 ASSUMPTIONS = ["bond graph = written bonds + constraints + bond edges of the applicable links (C02 reference)",
                "block-internal angles/dihedrals only along bonded paths (so that every parser builds the same bond graph)"]
 CASE_TIMEOUT = 60
